@@ -101,7 +101,7 @@ Qed.
 
 (* ---- the same facts about the code as translated on this run ---- *)
 Lemma save_index_atomic_true : save_index_atomic = true.
-Proof. vm_compute. reflexivity. Qed.
+Proof. vm_compute. auto. Qed.
 
 Lemma save_index_quiescent_src res acts trace s' :
   lrun save_index_atomic (linit res acts) trace = Some s' -> all_done s' = true ->
@@ -110,5 +110,6 @@ Proof. rewrite save_index_atomic_true. apply save_index_atomic_quiescent. Qed.
 
 (* the recogniser rejects the narrowed critical section *)
 Lemma atomic_calls_split_false :
-  atomic_calls [b "s.tagResolver.Map"; b "s.indexLock.Lock"; b "s.writeIndexFile"] = false.
-Proof. vm_compute. reflexivity. Qed.
+  atomic_calls [b "s.tagResolver.Map"; b "s.indexLock.Lock"; b "s.indexLock.Unlock"; b "s.writeIndexFile"] = false /\
+  atomic_calls [b "s.indexLock.Lock"; b "s.tagResolver.Map"; b "s.indexLock.Unlock"; b "s.writeIndexFile"] = false.
+Proof. vm_compute. auto. Qed.
